@@ -81,6 +81,13 @@ func run(c *core.Ctx) int {
 	}
 	mres := core.RunCases(c, "many", mcases, core.ChildOpts{Batch: 3, TimeoutS: 900, RlimitAS: 4 << 30})
 
+	nRepl := c.N(60, 2000)
+	var xcases []json.RawMessage
+	for i := 0; i < nRepl; i++ {
+		xcases = append(xcases, core.J(replCase{Seed: rng.U64(), Root: root}))
+	}
+	xres := core.RunCases(c, "replace", xcases, core.ChildOpts{Batch: 10, TimeoutS: 900, RlimitAS: 4 << 30})
+
 	evals := int64(0)
 	crash := func(mode string, cs json.RawMessage, r core.CaseResult) bool {
 		if r.Crash == nil {
@@ -222,6 +229,48 @@ func run(c *core.Ctx) int {
 			}
 		}
 	}
+	for _, r := range xres {
+		if crash("replace", xcases[r.Index], r) {
+			continue
+		}
+		var out struct {
+			Runs []*replResult `json:"runs"`
+		}
+		if err := json.Unmarshal(r.Out, &out); err != nil || len(out.Runs) == 0 {
+			c.Inconclusive("bad-child-output")
+			continue
+		}
+		for _, xr := range out.Runs {
+			if strings.HasPrefix(xr.Ended, "harness:") {
+				c.Inconclusive("harness-error")
+				continue
+			}
+			if strings.HasPrefix(xr.Ended, "inconclusive:") {
+				c.Inconclusive("replaced-dir:inode-number-reused")
+				continue
+			}
+			evals++
+			c.Count("replaced_dir_scripts", 1)
+			for k, n := range xr.Counts {
+				c.Count("replaced_dir_"+k, int64(n))
+			}
+			if xr.Shape != "" {
+				c.Distinct("replaced_dir_shapes", xr.Shape)
+			}
+			if r.Index%23 == 0 {
+				c.Sample(map[string]any{"mode": "replace", "case": xcases[r.Index], "shape": xr.Shape, "calls": xr.Log})
+			}
+			for _, f := range xr.Findings {
+				c.Count("finding:"+f.Sig, 1)
+				c.Violate(f.Sig, f.Detail, map[string]any{"mode": "replace", "case": xcases[r.Index], "engine": f.Engine, "finding": f})
+			}
+		}
+	}
+	for _, sh := range []string{"never-read:removed", "never-read:renamed", "read-fully:removed", "read-fully:renamed", "read-partially:removed", "read-partially:renamed"} {
+		if c.Counter("replaced_dir_shape:"+sh) == 0 {
+			c.Inconclusive("replaced-dir:shape-not-reached:" + sh)
+		}
+	}
 	for _, b := range []int{64, 128, 192} {
 		c.Count(fmt.Sprintf("many_fd_crossed_%d_open", b), int64(crossed[b]))
 		if crossed[b] == 0 {
@@ -279,9 +328,10 @@ func run(c *core.Ctx) int {
 	c.Assume("access mode of path_open follows wazero's documented rule: RIGHT_FD_READ/WRITE select it, otherwise read-write iff O_CREAT, O_TRUNC or FD_APPEND is given")
 	c.Assume("fd_readdir: a cookie older than the previous successful call's window may be refused with ENOENT (documented by wazero's DirentCache); cookie 0 starts a new pass; directory changes are only required to be visible after a rewind")
 	c.Assume("many-descriptor histories: path_open returns the lowest free descriptor number (POSIX rule, documented by wazero at FdPreopen) also across the 64/128/192 table-word boundaries; inode numbers reported by fd_filestat_get are compared with the ones path_filestat_get gave for the same path at the start (same guest view); stdio and the preopen are compared with their own state at start")
+	c.Assume("replaced-directory scripts: whatever errno is returned, a descriptor never shows entries or the inode of a different directory created later at the path it was opened with (sig dirfd-adopts-recreated-directory:*); resolution by the stale path name and failing/empty listings of renamed directories stay in the dirfd-stale-name family")
 	c.Assume("timestamps, inode numbers, nlink and directory sizes are not compared; directory order is not compared, only the multiset")
 	return c.Finish(evals, int64(c.DistinctN("history_shapes")+c.DistinctN("readdir_scripts")),
-		"evaluations = histories x engines + readdir scripts x engines + many-descriptor histories x engines run to a verdict; distinct = distinct op:scenario sequences of histories with >=10 operations + distinct readdir call logs")
+		"evaluations = histories x engines + readdir scripts x engines + many-descriptor histories x engines + replaced-directory scripts x engines run to a verdict; distinct = distinct op:scenario sequences of histories with >=10 operations + distinct readdir call logs")
 }
 
 func firstWords(s string) string {
@@ -297,6 +347,10 @@ func firstWords(s string) string {
 
 func child(mode string, in json.RawMessage) any {
 	switch mode {
+	case "replace":
+		var xc replCase
+		json.Unmarshal(in, &xc)
+		return map[string]any{"runs": []*replResult{runReplace(xc, 0), runReplace(xc, 1)}}
 	case "many":
 		var mc manyCase
 		json.Unmarshal(in, &mc)
@@ -353,7 +407,15 @@ func replay(c *core.Ctx, path string) int {
 			rc = 1
 		}
 	}
-	if w.Witness.Mode == "many" {
+	if w.Witness.Mode == "replace" {
+		var k replCase
+		json.Unmarshal(w.Witness.Case, &k)
+		k.Root, k.Trace = root, true
+		for e := 0; e < 2; e++ {
+			r := runReplace(k, e)
+			show(engineNames[e], r.Log, r.Findings)
+		}
+	} else if w.Witness.Mode == "many" {
 		var k manyCase
 		json.Unmarshal(w.Witness.Case, &k)
 		k.Root, k.Trace = root, true
